@@ -267,31 +267,21 @@ func knownIllFormed(w want) string {
 	if w.Pos < 0 || w.Pos > len(w.Text) {
 		return ""
 	}
-	// C17.F8: ill-formed bytes end exactly at the offending byte, or the
-	// lead byte of an incomplete sequence stands so close before it that its
-	// nominal length reaches it (an incomplete character before a line end
-	// / the end of input is left out of the excerpt, which compare accepts)
-	if w.Pos > 0 && knownClass("C17/illformed-adjacent") {
-		pre := w.Text[:w.Pos]
-		adjacent := false
-		if r, n := utf8.DecodeLastRune(pre); r == utf8.RuneError && n == 1 {
-			adjacent = true
-		}
-		for i := max(len(pre)-3, 0); i < len(pre); i++ {
-			need := 0
-			switch c := pre[i]; {
-			case c >= 0xF0 && c <= 0xF7:
-				need = 4
-			case c >= 0xE0 && c <= 0xEF:
-				need = 3
-			case c >= 0xC2 && c <= 0xDF:
-				need = 2
-			}
-			if i+need > len(pre) {
-				adjacent = true
+	// C17.F8: decided from the bytes of the true line immediately before the
+	// offending byte alone, whatever the offending character is (a visible
+	// character, a control character, LF / CR / CRLF, the end of input).
+	// One shape stays judged: a line that ends in exactly one incomplete
+	// character preceded by clean text (an input cut in the middle of a
+	// character); the command leaves that character out of the excerpt and
+	// puts the caret at its end, which compare accepts.
+	if w.Pos > 0 && knownClass("C17/illformed-adjacent") && illFormedBefore(w.Text[:w.Pos]) {
+		clean := false
+		if w.Pos == len(w.Text) {
+			if t := trimPartialRune(w.Text); len(t) != len(w.Text) && !illFormedBefore(t) {
+				clean = true
 			}
 		}
-		if adjacent && !(w.Pos == len(w.Text) && len(trimPartialRune(w.Text)) != len(w.Text)) {
+		if !clean {
 			return "C17/illformed-adjacent"
 		}
 	}
@@ -310,4 +300,32 @@ func knownIllFormed(w want) string {
 		}
 	}
 	return ""
+}
+
+// illFormedBefore: pre ends in ill-formed UTF-8 -- its last byte is an
+// ill-formed byte, or the lead byte of an incomplete sequence stands within
+// its last three bytes and the nominal length of that sequence reaches or
+// passes the end of pre.
+func illFormedBefore(pre []byte) bool {
+	if len(pre) == 0 {
+		return false
+	}
+	if r, n := utf8.DecodeLastRune(pre); r == utf8.RuneError && n == 1 {
+		return true
+	}
+	for i := max(len(pre)-3, 0); i < len(pre); i++ {
+		need := 0
+		switch c := pre[i]; {
+		case c >= 0xF0 && c <= 0xF7:
+			need = 4
+		case c >= 0xE0 && c <= 0xEF:
+			need = 3
+		case c >= 0xC2 && c <= 0xDF:
+			need = 2
+		}
+		if need > 0 && i+need > len(pre) {
+			return true
+		}
+	}
+	return false
 }
